@@ -5,9 +5,128 @@
 #include <cstring>
 #include <array>
 #include <util/obfuscation.h>
+#include <chain.h>
+#include <consensus/validation.h>
+#include <node/blockstorage.h>
+#include <primitives/block.h>
+#include <streams.h>
+#include <test/util/setup_common.h>
+#include <undo.h>
+#include <util/fs.h>
+#include <validation.h>
+
+#include <kernel/notifications_interface.h>
+#include <node/kernel_notifications.h>
+#include <dbwrapper.h>
+
+#include <fstream>
+#include <memory>
+#include <optional>
+
+// ---- block files of a deterministic regtest chain (TestChain100Setup, -fastprune: 64 KiB block files) ----
+struct ChainFiles {
+    std::unique_ptr<TestChain100Setup> setup;
+    std::array<unsigned char, 8> key{};    // xor key of the chain's own blocks dir (undo files)
+    std::array<unsigned char, 8> key2{};   // xor key of the second store
+    // A second block store with 64 KiB block files (fast_prune), filled with the chain's blocks in
+    // height order through the real WriteBlock: several files, records of different sizes.
+    std::unique_ptr<node::KernelNotifications> notif;
+    std::unique_ptr<node::BlockManager> bm2;
+    fs::path dir2;
+    std::vector<FlatFilePos> pos2;
+    ChainFiles()
+    {
+        TestOpts opts;
+        opts.extra_args = {"-fastprune"};
+        setup = std::make_unique<TestChain100Setup>(ChainType::REGTEST, opts);
+        setup->mineBlocks(260);   // enough to spill into further block files
+        {
+            LOCK(cs_main);
+            setup->m_node.chainman->ActiveChainstate().ForceFlushStateToDisk();
+        }
+        std::ifstream k(fs::PathToString(setup->m_args.GetBlocksDirPath() / "xor.dat"), std::ios::binary);
+        k.read(reinterpret_cast<char*>(key.data()), 8);
+
+        dir2 = setup->m_args.GetDataDirNet() / "c17store";
+        fs::create_directories(dir2);
+        notif = std::make_unique<node::KernelNotifications>(Assert(setup->m_node.shutdown_request), setup->m_node.exit_status, *Assert(setup->m_node.warnings));
+        node::BlockManager::Options o{
+            .chainparams = Params(),
+            .fast_prune = true,
+            .blocks_dir = dir2,
+            .notifications = *notif,
+            .block_tree_db_params = DBParams{.path = dir2 / "index", .cache_bytes = 0, .memory_only = true},
+        };
+        bm2 = std::make_unique<node::BlockManager>(*Assert(setup->m_node.shutdown_signal), o);
+        {
+            LOCK(cs_main);
+            const int tip = setup->m_node.chainman->ActiveChain().Height();
+            for (int h = 0; h <= tip; ++h) {
+                CBlock b;
+                if (!bm().ReadBlock(b, *setup->m_node.chainman->ActiveChain()[h])) throw std::runtime_error("cannot read chain block");
+                pos2.push_back(bm2->WriteBlock(b, h));
+            }
+        }
+        std::ifstream k2(fs::PathToString(dir2 / "xor.dat"), std::ios::binary);
+        k2.read(reinterpret_cast<char*>(key2.data()), 8);
+    }
+    std::string path2(const FlatFilePos& pos)
+    {
+        char name[32];
+        snprintf(name, sizeof name, "blk%05u.dat", pos.nFile);
+        return fs::PathToString(dir2 / fs::PathFromString(std::string{name}));
+    }
+    node::BlockManager& bm() { return setup->m_node.chainman->m_blockman; }
+    const CBlockIndex* index(int h) { LOCK(cs_main); return setup->m_node.chainman->ActiveChain()[h]; }
+    std::string path(const FlatFilePos& pos, bool undo)
+    {
+        char name[32];
+        snprintf(name, sizeof name, "%s%05u.dat", undo ? "rev" : "blk", pos.nFile);
+        return fs::PathToString(setup->m_args.GetBlocksDirPath() / fs::PathFromString(std::string{name}));
+    }
+    // plaintext bytes [from, from+len) of a file (fewer at end of file)
+    std::vector<unsigned char> plain(const std::string& file, uint64_t from, uint64_t len, const std::array<unsigned char, 8>& key)
+    {
+        std::ifstream f(file, std::ios::binary);
+        f.seekg(0, std::ios::end);
+        uint64_t sz = (uint64_t)f.tellg();
+        std::vector<unsigned char> out;
+        if (from >= sz) return out;
+        len = std::min(len, sz - from);
+        out.resize(len);
+        f.seekg(from);
+        f.read(reinterpret_cast<char*>(out.data()), len);
+        for (uint64_t i = 0; i < len; ++i) out[i] ^= key[(from + i) % 8];
+        return out;
+    }
+    uint64_t file_size(const std::string& file)
+    {
+        std::ifstream f(file, std::ios::binary);
+        f.seekg(0, std::ios::end);
+        return (uint64_t)f.tellg();
+    }
+    // XOR one byte on disk (a bit flip of the stored byte is the same flip of the plaintext byte)
+    void flip(const std::string& file, uint64_t at, unsigned char mask)
+    {
+        std::fstream f(file, std::ios::binary | std::ios::in | std::ios::out);
+        f.seekg(at);
+        char c = 0;
+        f.read(&c, 1);
+        c ^= (char)mask;
+        f.seekp(at);
+        f.write(&c, 1);
+    }
+};
+static std::unique_ptr<ChainFiles> g_chain;
+static ChainFiles& chain()
+{
+    if (!g_chain) g_chain = std::make_unique<ChainFiles>();
+    return *g_chain;
+}
 
 int main(int argc, char** argv)
 {
+    struct Cleanup { ~Cleanup() { g_chain.reset(); } } cleanup;
     return vd::main_loop([&](const std::vector<std::string>& w, const std::string&) -> std::string {
         if (w.size() == 5 && w[0] == "obf") {
             auto key = vd::unhex(w[1]);
@@ -25,6 +144,66 @@ int main(int argc, char** argv)
             Obfuscation obf{kb};
             obf(std::span<std::byte>{reinterpret_cast<std::byte*>(p), data.size()}, off);
             return vd::hex(p, p + data.size());
+        }
+        // dumprec <height> : where the block record and the undo record of that height live (used when cases are generated)
+        //   -> <file> <pos> <payload_size> <file_size> <hex of plaintext [pos-8, pos+size+24)> | <ufile> <upos> <usize> <hex of [upos-8, upos+usize+32+8)>
+        if (w.size() == 2 && w[0] == "dumprec") {
+            ChainFiles& c = chain();
+            const CBlockIndex* idx = c.index((int)vd::ll(w[1]));
+            if (!idx) return "none";
+            FlatFilePos bp = c.pos2.at((size_t)vd::ll(w[1])), up;
+            { LOCK(cs_main); up = idx->GetUndoPos(); }
+            const std::string bf = c.path2(bp);
+            auto hdr = c.plain(bf, bp.nPos - 8, 8, c.key2);
+            uint32_t size = hdr[4] | (hdr[5] << 8) | (hdr[6] << 16) | ((uint32_t)hdr[7] << 24);
+            std::string out = std::to_string(bp.nFile) + " " + std::to_string(bp.nPos) + " " + std::to_string(size) + " " +
+                              std::to_string(c.file_size(bf)) + " " + vd::hex(c.plain(bf, bp.nPos - 8, 8 + (uint64_t)size + 24, c.key2));
+            if (!up.IsNull()) {
+                const std::string uf = c.path(up, true);
+                auto uh = c.plain(uf, up.nPos - 8, 8, c.key);
+                uint32_t usize = uh[4] | (uh[5] << 8) | (uh[6] << 16) | ((uint32_t)uh[7] << 24);
+                out += " | " + std::to_string(up.nFile) + " " + std::to_string(up.nPos) + " " + std::to_string(usize) + " " +
+                       vd::hex(c.plain(uf, up.nPos - 8, 8 + (uint64_t)usize + 32 + 8, c.key));
+            }
+            return out;
+        }
+        // rec <height> <slicehex> <tail_known> <rel_off> <mask> : flip a byte of the stored block record, then ReadRawBlock and ReadBlock
+        if (w.size() == 6 && w[0] == "rec") {
+            ChainFiles& c = chain();
+            const CBlockIndex* idx = c.index((int)vd::ll(w[1]));
+            if (!idx) return "none";
+            FlatFilePos bp = c.pos2.at((size_t)vd::ll(w[1]));
+            const std::string bf = c.path2(bp);
+            auto expect = vd::unhex(w[2]);
+            if (c.plain(bf, bp.nPos - 8, expect.size(), c.key2) != expect) return "MISMATCH stored bytes differ from the case";
+            const uint64_t at = bp.nPos - 8 + vd::ull(w[4]);
+            const unsigned char mask = (unsigned char)vd::ull(w[5]);
+            if (mask) c.flip(bf, at, mask);
+            std::string out;
+            auto raw = c.bm2->ReadRawBlock(bp);
+            out += raw ? "raw=ok:" + vd::hex(reinterpret_cast<const unsigned char*>(raw->data()), reinterpret_cast<const unsigned char*>(raw->data()) + raw->size()) : std::string("raw=err");
+            CBlock blk;
+            bool ok = c.bm2->ReadBlock(blk, bp, idx->GetBlockHash());
+            out += ok ? " blk=1" : " blk=0";
+            if (mask) c.flip(bf, at, mask);
+            return out;
+        }
+        // undo <height> <usize> <rel_off> <mask> : flip a byte of the stored undo record (header, payload or checksum), then ReadBlockUndo
+        if (w.size() == 5 && w[0] == "undo") {
+            ChainFiles& c = chain();
+            const CBlockIndex* idx = c.index((int)vd::ll(w[1]));
+            if (!idx) return "none";
+            FlatFilePos up;
+            { LOCK(cs_main); up = idx->GetUndoPos(); }
+            if (up.IsNull()) return "none";
+            const std::string uf = c.path(up, true);
+            const uint64_t at = up.nPos - 8 + vd::ull(w[3]);
+            const unsigned char mask = (unsigned char)vd::ull(w[4]);
+            if (mask) c.flip(uf, at, mask);
+            CBlockUndo u;
+            bool ok = c.bm().ReadBlockUndo(u, *idx);
+            if (mask) c.flip(uf, at, mask);
+            return ok ? "undo=1" : "undo=0";
         }
         return "BADCASE";
     });
